@@ -42,12 +42,19 @@ class ScriptEntity(Entity):
         super().__init__(name)
         self.w = world
 
+    @property
+    def level(self):
+        """A metric for MetricBreakpoint: deliveries so far in this world, modulo 3."""
+        return len(self.w.delivered) % 3
+
     def handle_event(self, event):
         w = self.w
         md = event.context["metadata"]
         # the entity is stateless; what it knows about an event lives in the event's own metadata
         md["seen"] = md.get("seen", 0) + 1
         lab = md.get("label")
+        if lab is None:             # an event that no program made (a source tick): name it by its instant
+            lab = 70000 + self.now.nanoseconds // w.step
         if md["seen"] > 1:          # the same metadata reached a handler twice: make it visible
             lab = lab + 100000 * (md["seen"] - 1)
         w.delivered.append((lab, self.now.nanoseconds, self.name))
